@@ -17,6 +17,7 @@ Proofs: Proofs/RulesNary.lean, Proofs/SRootMul.lean, Proofs/DriverSound.lean, Pr
 -/
 import Smooth.Proofs.RulesNary
 import Smooth.Proofs.DriverSound
+import Smooth.Proofs.RulesUnary
 
 namespace Smooth
 open Expr
@@ -166,5 +167,57 @@ example (e : Expr ℝ) : (fullyReduceWith realNum 0 e).warned = true ∧
     Refines e (fullyReduceWith realNum 0 e).expr :=
   ⟨rfl, fullyReduce_refines (Allowed := fun r _ => r.isNary = true)
     (fun _ _ _ happ hal => nary_rule_refines hal happ) 0 e trivial⟩
+
+
+/-! ### all 46 rules together; the recorded defect K1 as the one explicit side condition -/
+
+/-- every rule that is not one of the twelve n-ary rules is one of the 34 unary/binary rules -/
+theorem non_nary_is_unary (r : RuleId) (h : r.isNary = false) : r ∈ unaryRules := by
+  cases r <;> first | (exact absurd h (by decide)) | (simp [unaryRules])
+
+/-- **C08, every individual rewrite rule.**  Each of the 46 rules, whenever it fires, yields an
+expression that is well formed, needs no new variable, is defined wherever the input is defined and
+has the same value there — except the even/even instance of `NthRoot(NthPower(u, m), n)` (K1), which
+is exactly what `K1FreeAt` excludes. -/
+theorem all_rules_sound : RulesSound K1FreeAt :=
+  rulesSound_of_others K1FreeAt fun r e e' hr happ hal =>
+    unaryRule_refines r (non_nary_is_unary r hr) e e' happ hal
+
+/-- one step of the driver (rule, constant fold, child step or flag) -/
+theorem step_sound_partial (e : Expr ℝ) (hok : StepOK K1FreeAt e) :
+    Refines e (stepF realNum e).1 :=
+  step_sound K1FreeAt all_rules_sound e hok
+
+/-- the whole reduction loop, for every budget — also when the rewriter gives up and returns a
+partially reduced form -/
+theorem fully_reduce_sound_partial (bound : Nat) (e : Expr ℝ) (hok : RunOK K1FreeAt bound e) :
+    Refines e (fullyReduceWith realNum bound e).expr :=
+  fully_reduce_sound K1FreeAt all_rules_sound bound e hok
+
+/-- `_normalize()` : reduction followed by the normal-form pass, on arbitrary input -/
+theorem normalize_sound_partial (bound fuel : Nat) (e e' : Expr ℝ) (w : Bool)
+    (hok : NormOK K1FreeAt bound fuel e) (h : normalizeF realNum bound fuel e = some (e', w)) :
+    Refines e e' :=
+  normalize_sound K1FreeAt all_rules_sound bound fuel e e' w hok h
+
+/-- the full statement (without the K1 side condition) is FALSE for the code as it is: -/
+theorem rule_soundness_fails_at_K1 :
+    RuleId.nrootPow.apply realNum (mkNRoot (mkNPow (mkVar "x") 2) 2 : Expr ℝ) =
+        some (mkNPow (mkNRoot (mkVar "x") 2) 2) ∧
+      ¬ Refines (mkNRoot (mkNPow (mkVar "x") 2) 2 : Expr ℝ) (mkNPow (mkNRoot (mkVar "x") 2) 2) :=
+  ⟨rfl, nrootPow_unsound⟩
+
+/-- K1 through the evaluator: at x = -3 the redex has a value, the rewritten form raises -/
+theorem K1_witness_eval :
+    (∃ v, evalG realNum [("x", -3)] (mkNRoot (mkNPow (mkVar "x") 2) 2 : Expr ℝ) = .ok v) ∧
+      evalG realNum [("x", -3)] (mkNPow (mkNRoot (mkVar "x") 2) 2 : Expr ℝ) = .error .domain :=
+  nrootPow_unsound_eval
+
+/-- non-vacuity: each of the 34 unary/binary rules fires on a well-formed, K1-free redex that is in
+its domain -/
+example : ∀ r ∈ unaryRules, ∃ e' : Expr ℝ,
+    r.apply realNum (unaryWitness r) = some e' ∧ WF (unaryWitness r) ∧
+      K1FreeAt r (unaryWitness r) ∧ Dom (fun _ => (2 : ℝ)) (unaryWitness r) :=
+  unaryRule_fires
 
 end Smooth
